@@ -643,3 +643,74 @@ pub fn gen_c16(thorough: bool, seed: u64) -> Vec<Episode> {
     }
     eps
 }
+
+
+/// C18: the MIP optimizers (driven by the `voptim` binary, built with the optim-mip feature)
+pub fn gen_c18(thorough: bool, seed: u64) -> Vec<Episode> {
+    let mut eps = Vec::new();
+    let mut r = rng(seed, 18);
+    let triples: Vec<(i32, i32, i32)> = if thorough {
+        let mut v = Vec::new();
+        for a in 1..=3 {
+            for x in 1..=3 {
+                for o in 1..=3 {
+                    v.push((a, x, o));
+                }
+            }
+        }
+        v
+    } else {
+        vec![(1, 1, 1), (1, 2, 1), (2, 1, 3), (3, 3, 1)]
+    };
+    let kinds = ["sop", "sopes", "esop"];
+    let onset = |n: usize, f: u64| -> Vec<usize> { (0..dom(n)).filter(|&m| (f >> m) & 1 == 1).collect() };
+    let mut k = 0usize;
+    let push = |eps: &mut Vec<Episode>, n: usize, fs: Vec<Vec<usize>>, kind: &str, t: (i32, i32, i32)| {
+        eps.push(ep(n, vec![json!({"op": "optimize", "kind": kind, "n": n, "fs": fs, "andc": t.0, "xorc": t.1, "orc": t.2})]));
+    };
+    // all lists of 1..2 functions for n <= 2
+    for n in 0..=2usize {
+        let total: u64 = 1u64 << (1u64 << n);
+        for f in 0..total {
+            for kind in kinds {
+                for &t in &triples {
+                    k += 1;
+                    if !thorough && n == 2 && k % 2 == 0 {
+                        continue;
+                    }
+                    push(&mut eps, n, vec![onset(n, f)], kind, t);
+                }
+            }
+            for g in 0..total {
+                for kind in kinds {
+                    k += 1;
+                    if !thorough && n == 2 && (k % 5 != 0) {
+                        continue;
+                    }
+                    let t = triples[k % triples.len()];
+                    push(&mut eps, n, vec![onset(n, f), onset(n, g)], kind, t);
+                }
+            }
+        }
+    }
+    // all single functions of n = 3
+    for f in 0..256u64 {
+        for kind in kinds {
+            k += 1;
+            if !thorough && k % 3 != 0 {
+                continue;
+            }
+            let t = triples[k % triples.len()];
+            push(&mut eps, 3, vec![onset(3, f)], kind, t);
+        }
+    }
+    if thorough {
+        // two outputs at n = 3 (sampled)
+        for _ in 0..40 {
+            let kind = kinds[r.gen_range(0..3)];
+            let t = triples[r.gen_range(0..triples.len())];
+            push(&mut eps, 3, vec![onset(3, r.gen_range(0..256)), onset(3, r.gen_range(0..256))], kind, t);
+        }
+    }
+    eps
+}
